@@ -50,12 +50,17 @@ import (
 var VerifDial func(ctx context.Context) (net.Conn, error)
 
 // VerifPending returns (#pooled connections, #pending entries).
+// It never blocks: if a task holds one of the locks it returns (-1, -1).
 func (trans *Transport) VerifPending() (conns, pending int) {
-	trans.lock.RLock()
+	if !trans.lock.TryRLock() {
+		return -1, -1
+	}
 	defer trans.lock.RUnlock()
 	for _, c := range trans.conns {
 		conns++
-		c.lock.Lock()
+		if !c.lock.TryLock() {
+			return -1, -1
+		}
 		pending += len(c.results)
 		c.lock.Unlock()
 	}
@@ -64,7 +69,9 @@ func (trans *Transport) VerifPending() (conns, pending int) {
 
 // VerifSetCounter presets the request counter of every pooled connection.
 func (trans *Transport) VerifSetCounter(v int32) {
-	trans.lock.RLock()
+	if !trans.lock.TryRLock() {
+		return
+	}
 	defer trans.lock.RUnlock()
 	for _, c := range trans.conns {
 		c.counter = v
@@ -92,12 +99,17 @@ import (
 var VerifNetDial func(ctx context.Context, network, addr string) (net.Conn, error)
 
 // VerifPending returns (#pooled connections, #pending entries).
+// It never blocks: if a task holds one of the locks it returns (-1, -1).
 func (trans *Transport) VerifPending() (conns, pending int) {
-	trans.lock.RLock()
+	if !trans.lock.TryRLock() {
+		return -1, -1
+	}
 	defer trans.lock.RUnlock()
 	for _, c := range trans.conns {
 		conns++
-		c.lock.Lock()
+		if !c.lock.TryLock() {
+			return -1, -1
+		}
 		pending += len(c.results)
 		c.lock.Unlock()
 	}
@@ -106,7 +118,9 @@ func (trans *Transport) VerifPending() (conns, pending int) {
 
 // VerifSetCounter presets the request counter of every pooled connection.
 func (trans *Transport) VerifSetCounter(v int32) {
-	trans.lock.RLock()
+	if !trans.lock.TryRLock() {
+		return
+	}
 	defer trans.lock.RUnlock()
 	for _, c := range trans.conns {
 		c.counter = v
